@@ -20,7 +20,10 @@ def deriv_check(tier="quick", seed=0, only=None):
 
     failures, cases = [], 0
     S = scenarios()
-    names = ["qp_eq_box", "nlp_mixed"] if tier == "quick" else [n for n in S if n != "infeasible"] + ["infeasible"]
+    # qp_big_multipliers is left out: at its start point the objective is ~5e7, so the forward difference quotient
+    # with eps = 1e-8 carries a cancellation error of order 1 - outside the Taylor / no-cancellation assumption under
+    # which C19's acceptance statement is claimed (a correct gradient is then rejected by the real checker)
+    names = ["qp_eq_box", "nlp_mixed"] if tier == "quick" else [n for n in S if n not in ("infeasible", "qp_big_multipliers")] + ["infeasible"]
     for name in names:
         mk, x0, y0 = S[name]
         base = mk()
